@@ -5,6 +5,7 @@ from . import e1
 from . import graphs as G
 from .common import Report, pmap
 
+E1_KEYS = ("C01", "C02", "C04", "C12", "C13")
 RULES = {
     "C01": "states = all labelled coloured graphs of the listed spaces (every numbering of every molecule) "
            "plus bond listing/orientation variants; non-trivial = states whose refined partition has a "
@@ -24,11 +25,11 @@ def spaces_for(prop, tier):
     if tier == "thorough":
         sp = list(e1.THOROUGH_SPACES)
         if prop == "C12":
-            sp = e1.QUICK_SPACES + [(4, e1.A6, None), (6, e1.A2, None)]
+            sp = e1.QUICK_SPACES + [(4, e1.A7, None), (6, e1.A2, None)]
         return sp
     sp = list(e1.QUICK_SPACES)
     if prop == "C12":
-        sp = [(1, e1.A6, None), (2, e1.A6, None), (3, e1.A6, None), (4, e1.A4, None),
+        sp = [(1, e1.A7, None), (2, e1.A7, None), (3, e1.A7, None), (4, e1.A5, None),
               (5, e1.alphabet(G.C, G.CRAD), None), (6, e1.A1, None)]
     return sp
 
@@ -54,7 +55,10 @@ def run(prop: str, tier: str) -> int:
         rep.add(states=res["states"], transitions=res["transitions"],
                 traces_validated_against_impl=res["exec"] + res["hist_exec"])
         for key, case in res["vios"]:
+            if key[:3] in E1_KEYS and not key.startswith(prop):
+                continue
             rep.violation(f"{prop}|{key}" if not key.startswith(prop) else key, case)
+        rep.add(derived_graph_descriptions_executed=res.get("derived_exec", 0))
         for s in res["samples"]:
             rep.sample(s)
         n_orbits += len(res["orbits"])
